@@ -212,7 +212,12 @@ impl Prog {
     pub fn decode(t: &mut Tape, cfg: &ProgCfg) -> Prog {
         let atoms = if cfg.tiny_alphabet {
             let n = 1 + t.choose(3);
-            Atoms::from_landmarks((0..n).map(|i| 0x61 + i as u32).collect())
+            let mut l: Vec<u32> = (0..n).map(|i| 0x61 + i as u32).collect();
+            // sometimes a far-away landmark that agrees with 'a' on its low bits (table / hash aliasing)
+            if t.bool_p(50) {
+                l.push(t.pick(&[0x161u32, 0x10061, 0x2FF61, 0x6100]));
+            }
+            Atoms::from_landmarks(l)
         } else {
             Atoms::decode(t, cfg.max_landmarks)
         };
@@ -238,10 +243,76 @@ impl Prog {
             if n >= cfg.max_ins || (n >= 1 && t.exhausted()) {
                 break;
             }
+            // now and then: two different spellings of the same one-word language, combined
+            // (syntactically different, semantically equal terms are what rewriting gets wrong)
+            if n + 7 <= cfg.max_ins && t.bool_p(24) {
+                Self::decode_respell(t, &atoms, &mut ins);
+                continue;
+            }
             let i = Self::decode_ins(t, &atoms, cfg, big, n);
             ins.push(i);
         }
         Prog { atoms, ins }
+    }
+
+    /// a word w = u^k (+ tail) spelled as str(w) and in another way, then combined
+    fn decode_respell(t: &mut Tape, atoms: &Atoms, ins: &mut Vec<Ins>) {
+        let ulen = 1 + t.choose(2);
+        let u: Vec<u32> = (0..ulen).map(|_| atoms.pick_landmark(t)).collect();
+        let k = 2 + t.choose(2);
+        let mut w: Vec<u32> = Vec::new();
+        for _ in 0..k {
+            w.extend(&u);
+        }
+        let tail: Vec<u32> = if t.bool_p(80) { vec![atoms.pick_landmark(t)] } else { vec![] };
+        let mut full = w.clone();
+        full.extend(&tail);
+        ins.push(Ins::Str(full.clone()));
+        let a = ins.len() - 1;
+        // second spelling
+        match t.choose(3) {
+            0 => {
+                ins.push(Ins::Str(u.clone()));
+                let us = ins.len() - 1;
+                ins.push(Ins::Exp(us, k as u32));
+                if !tail.is_empty() {
+                    let e = ins.len() - 1;
+                    ins.push(Ins::Str(tail.clone()));
+                    let ts = ins.len() - 1;
+                    ins.push(Ins::Concat(e, ts));
+                }
+            }
+            1 => {
+                let m = 1 + t.choose(full.len() - 1);
+                ins.push(Ins::Str(full[..m].to_vec()));
+                let x = ins.len() - 1;
+                ins.push(Ins::Str(full[m..].to_vec()));
+                let y = ins.len() - 1;
+                ins.push(Ins::Concat(x, y));
+            }
+            _ => {
+                // ((u.u).u)... built by repeated binary concatenation of str(u)
+                ins.push(Ins::Str(u.clone()));
+                let us = ins.len() - 1;
+                let mut acc = us;
+                for _ in 1..k {
+                    ins.push(Ins::Concat(acc, us));
+                    acc = ins.len() - 1;
+                }
+                if !tail.is_empty() {
+                    ins.push(Ins::Str(tail.clone()));
+                    let ts = ins.len() - 1;
+                    ins.push(Ins::Concat(acc, ts));
+                }
+            }
+        }
+        let b = ins.len() - 1;
+        ins.push(match t.choose(4) {
+            0 => Ins::Inter(a, b),
+            1 => Ins::Union(a, b),
+            2 => Ins::Diff(a, b),
+            _ => Ins::Inter(b, a),
+        });
     }
 
     pub fn decode_leaf(t: &mut Tape, atoms: &Atoms) -> Ins {
